@@ -15,7 +15,7 @@ import z3
 
 from engine import py2smt as P
 
-CPP = '/repo/src/TotalDepth/LIS/core/src/cpp/LISRepCode.cpp'
+CPP = os.path.join(os.environ.get('VERIF_REPO') or '/repo', 'src/TotalDepth/LIS/core/src/cpp/LISRepCode.cpp')
 
 
 def emit_ir(path=CPP):
